@@ -16,7 +16,7 @@ Names   == {"A", "B"}
 Urls    == {"mem", "d1", "d2"}
 Handles == {"h1", "h2", "h3", "h4"}
 FeedIds == {"f1", "f2"}
-Colls   == {"c0", "c1"}
+Colls   == {"c0", "c1", "c2"}    \* c1 can be dropped and re-created; c2 is created on first use and never dropped
 Modes   == {"CreateOrOpen", "CreateNew", "ReOpenExisting"}
 
 NoStore == [exists |-> FALSE, docs |-> [c \in Colls |-> {}], dd |-> FALSE, c1 |-> FALSE]
@@ -113,7 +113,7 @@ Apply(S, a) ==
                           !.fd[a.f] =
                     IF a.fk \in {"dump", "dumpnb"} THEN [st |-> "ended", n |-> hd.n, u |-> hd.u, colls |-> {a.c}, kind |-> a.fk, done |-> TRUE]
                     ELSE [st |-> "running", n |-> hd.n, u |-> hd.u,
-                          colls |-> IF a.fk = "multi" THEN Colls ELSE IF a.fk = "bucket" THEN {"c0"} ELSE {a.c},
+                          colls |-> IF a.fk = "multi" THEN {"c0", "c1"} ELSE IF a.fk = "bucket" THEN {"c0"} ELSE {a.c},
                           kind |-> a.fk, done |-> FALSE]]
       [] a.kind = "PutDDoc" ->     \* a design document on collection c1
            IF hd.st # "open" \/ (hd.stale /\ ~a.force) THEN S
